@@ -44,9 +44,10 @@ LEVEL = "model_checking"
 
 POOL_MAX = 4
 BASE = ([("seed", s) for s in (None, 1, 2)] + [("shots", n) for n in (1, 2)] + [("offset", o) for o in (0, 1)]
-        + [("simobj", None), ("sv", None), ("stab", None), ("coin", None)])
+        + [("simobj", None), ("simshared", None), ("sv", None), ("stab", None), ("coin", None)])
 EXT = BASE + [("errm", None), ("rt", None)]
 METHOD = {"seed": "with_seed", "shots": "with_shots", "offset": "with_shot_offset", "simobj": "with_simulator",
+          "simshared": "with_simulator",
           "sv": "statevector_sim", "stab": "stabilizer_sim", "coin": "coinflip_sim", "errm": "with_error_model",
           "rt": "with_runtime", "run": "run"}
 
@@ -174,6 +175,11 @@ class World:
             new = x.with_shot_offset(arg)
         elif kind == "simobj":
             new = x.with_simulator(_mk_component(kind))
+        elif kind == "simshared":
+            # ONE user-owned simulator object handed to several configurations
+            if getattr(self, "shared_sim", None) is None:
+                self.shared_sim = _mk_component("simobj")
+            new = x.with_simulator(self.shared_sim)
         elif kind == "errm":
             new = x.with_error_model(_mk_component(kind))
         elif kind == "rt":
